@@ -203,7 +203,10 @@ class Peek(Terminal):
         gen.writeln("else:")
         with gen.block():
             gen.writeln(f"{matched_var} = False")
-            gen.writeln(f"state.fail({peeked})")
+            # Like `parse()`, an empty stack fails without recording a label.
+            gen.writeln(f"if {peeked} is not None:")
+            with gen.block():
+                gen.writeln(f"state.fail({peeked})")
 
         gen.writeln("# </Peek>")
 
@@ -309,7 +312,10 @@ class Pop(Terminal):
         gen.writeln("else:")
         with gen.block():
             gen.writeln(f"{matched_var} = False")
-            gen.writeln(f"state.fail({peeked})")
+            # Like `parse()`, an empty stack fails without recording a label.
+            gen.writeln(f"if {peeked} is not None:")
+            with gen.block():
+                gen.writeln(f"state.fail({peeked})")
 
         gen.writeln("# </Pop>")
 
